@@ -348,7 +348,11 @@ static void scenario(char *toks)
 		pthread_join(th[i], NULL);
 	printf("end num_free=%u sendp=%u flags=%u receivep=%u\n", (unsigned)atomic_load(&q.num_free),
 	       (unsigned)atomic_load(&q.sendp), (unsigned)atomic_load(&q.full_flags), (unsigned)q.receivep);
-	/* quiescent: the main thread drains what was sent and counts the buffers that can still be claimed */
+	/* quiescent (no call in progress): the counter in the real structure must be capacity minus messages still held */
+	if ((int)(unsigned)atomic_load(&q.num_free) != depth - outstanding)
+		V("after all operations completed num_free is %u, capacity minus messages still held is %d",
+		  (unsigned)atomic_load(&q.num_free), depth - outstanding);
+	/* the main thread drains what was sent and counts the buffers that can still be claimed */
 	int drained = 0, extra = 0, extra_bad = 0;
 	for (;;) {
 		unsigned char *p = messageq_receive(&q);
